@@ -1,17 +1,17 @@
 #!/bin/bash
-# usage: seedverify.sh <seed-out-dir> <worktree> <base-commit> <package> <demo-filter>
+# usage: seedverify.sh <seed-out-dir> <worktree> <base-commit> <nextest args for the demo...>
 # Confirms for a seeded change: demo passes without the change, fails with it, and the
 # repository's own suite still passes with the change (demo not applied).
-D=$1; WT=$2; BASE=$3; PKG=$4; FILT=$5
+D=$1; WT=$2; BASE=$3; shift 3
 export CARGO_TARGET_DIR=$WT/target CARGO_NET_OFFLINE=true
 cd $WT || exit 2
 git checkout -q --detach $BASE; git reset -q --hard; git clean -qfd -e target -e Cargo.lock
 [ -f Cargo.lock ] || cp /repo/Cargo.lock .
 git apply $D/demo.diff || { echo "VERIFY $D: demo.diff does not apply"; exit 3; }
-r1=$(cargo nextest run -p $PKG --offline --no-fail-fast $FILT 2>&1 | grep -E "^\s+Summary|error" | tail -1)
+r1=$(cargo nextest run --offline --no-fail-fast "$@" 2>&1 | grep -E "^\s+Summary|^error" | tail -1)
 git apply $D/patch.diff || { echo "VERIFY $D: patch.diff does not apply"; exit 3; }
-r2=$(cargo nextest run -p $PKG --offline --no-fail-fast $FILT 2>&1 | grep -E "^\s+Summary|error" | tail -1)
-git reset -q --hard; git apply $D/patch.diff
-r3=$(cargo nextest run --workspace --no-fail-fast --offline 2>&1 | grep -E "^\s+Summary|error" | tail -1)
+r2=$(cargo nextest run --offline --no-fail-fast "$@" 2>&1 | grep -E "^\s+Summary|^error" | tail -1)
+git reset -q --hard; git clean -qfd -e target -e Cargo.lock; git apply $D/patch.diff
+r3=$(cargo nextest run --workspace --no-fail-fast --offline 2>&1 | grep -E "^\s+Summary|^error" | tail -1)
 git reset -q --hard; git clean -qfd -e target -e Cargo.lock
 echo "VERIFY $D"; echo "  demo without change: $r1"; echo "  demo with change:    $r2"; echo "  suite with change:   $r3"
